@@ -39,9 +39,9 @@ def _record(ctx, exe, exe_omp):
     w = ctx.work
     # OpenMP runs: few threads, no spinning (the machine is shared)
     omp = {"OMP_NUM_THREADS": "3", "OMP_WAIT_POLICY": "passive", "GOMP_SPINCOUNT": "0"}
-    jobs = [("hist", exe, ["hist", os.path.join(w, "hist.ndjson"), 32 if q else 400, 36 if q else 60, 0 if q else 1], {}),
-            ("allbatch", exe, ["allbatch", os.path.join(w, "allbatch.ndjson"), 2 if q else 16, 20 if q else 40], {}),
-            ("long", exe, ["long", os.path.join(w, "long.ndjson"), 1 if q else 8, 2000 if q else 10000], {}),
+    jobs = [("hist", exe, ["hist", os.path.join(w, "hist.ndjson"), 32 if q else 150, 36 if q else 50, 0 if q else 1], {}),
+            ("allbatch", exe, ["allbatch", os.path.join(w, "allbatch.ndjson"), 2 if q else 6, 20 if q else 40], {}),
+            ("long", exe, ["long", os.path.join(w, "long.ndjson"), 1 if q else 3, 2000 if q else 10000], {}),
             ("gradx", exe, ["gradx", os.path.join(w, "gradx.ndjson"), 16 if q else 200, 0 if q else 1], {}),
             ("gradx-omp", exe_omp, ["gradx", os.path.join(w, "gradx-omp.ndjson"), 16 if q else 150, 0 if q else 1], omp),
             ("grad", exe, ["grad", os.path.join(w, "grad.ndjson"), 4 if q else 40, 0 if q else 1], {}),
@@ -143,6 +143,8 @@ def run(ctx):
                 ctx.known_hits[cls] = known_ids[cls]["what"]
                 continue
             first, ex = _execution(recs, ln)
+            if recs[ln - 1]["e"] == "Abort" and ln >= 2 and recs[ln - 2]["e"] == "End":
+                raise lib.ModelFailure("the driver aborted between two executions (outside the code under test), after %s" % json.dumps(ex[0])[:300])
             if cls == "bad-config":
                 raise lib.ModelFailure("driver produced an execution outside the domain of LmToProj.tla: %s" % json.dumps(ex[0])[:400])
             rp = os.path.join(ctx.work, "violation-%s-%d.ndjson" % (os.path.basename(p).replace(".ndjson", ""), ln))
